@@ -548,16 +548,28 @@ def r24_form_shapes(ctx):
     rule = "R24.basic"
     gen = ctx.func("parsers.TimePointParser._generate_regexes")
     ok_switch = False
-    for n_ in walk_no_nested(gen.node):
-        if isinstance(n_, ast.If) and "allow_only_basic" in U(n_.test):
-            for st in n_.body:
-                if isinstance(st, ast.Assign) and isinstance(
-                        st.value, ast.List) and [
-                            U(e) for e in st.value.elts] == ["'basic'"]:
-                    var = U(st.targets[0])
-                    loops = [l for l in walk_no_nested(gen.node)
-                             if isinstance(l, ast.For) and U(l.iter) == var]
-                    ok_switch = bool(loops)
+    from ..flow import alternatives as _alts_b
+    for l in walk_no_nested(gen.node):
+        # the loop over the format keys: under allow_only_basic its list is
+        # exactly ('basic',), whichever way the choice is written
+        if not (isinstance(l, ast.For) and isinstance(l.iter, ast.Name)):
+            continue
+        alts = _alts_b(gen.node, l.iter.id)
+        if not alts or not all(isinstance(v, (ast.List, ast.Tuple)) and all(
+                isinstance(e, ast.Constant) for e in v.elts)
+                for v, _ in alts):
+            continue
+        under_basic = []
+        for v, conds in alts:
+            for t, pol in conds:
+                tt, pl = t, pol
+                while isinstance(tt, ast.UnaryOp) and isinstance(
+                        tt.op, ast.Not):
+                    tt, pl = tt.operand, not pl
+                if U(tt).endswith("allow_only_basic") and pl:
+                    under_basic.append([e.value for e in v.elts])
+        if under_basic and all(x == ["basic"] for x in under_basic):
+            ok_switch = True
     rep.check(ok_switch, rule, ctx.fkey(gen, None, "only-basic"), gen.loc(),
               "with allow_only_basic the regex maps are built from the "
               "'basic' key only",
